@@ -37,6 +37,12 @@ pub fn run(env: &Env, run: &Run) -> (Stats, Coverage) {
     let sigma = crate::sig::rotated(env, sigma12(), run.seed);
     let n = run.tier.pick(7, 9);
     let mut st = strtree(&sigma, n, |_c, s, st| visit(env, s, st));
+    // runs of LETTERS with every short tail behind them, and two words of every length pair up to
+    // 40 between separators (the alphabet above starts with the spaces; here letters lead)
+    {
+        let letters_first: Vec<char> = ['a', 'b', ' ', '\u{a0}', '\u{e9}', '\u{3000}'].to_vec();
+        st.merge(run_tails_and_two_runs(&letters_first, |s, st| visit(env, s, st)));
+    }
     {
         let stairs = block_staircases(env, crate::subject::Class::Freeform);
         st.merge(run_family(&stairs, |s, st| visit(env, s, st)));
